@@ -161,6 +161,8 @@ pub struct RefResult {
     pub fragile_why: Option<&'static str>,
     /// first iteration after which matching before or after discounting give different strategies
     pub ambiguous_at: Option<u64>,
+    /// first iteration after which an exact tie was resolved by the tie rule
+    pub tie_used_at: Option<u64>,
     /// a draw the decider could not provide
     pub missing_draw: Option<(Kind, usize, usize, u64)>,
     pub draws: Vec<RefDraw>,
@@ -169,6 +171,19 @@ pub struct RefResult {
 }
 
 pub const MARGIN: f64 = 1e-9;
+
+/// How an exact, summation-order independent tie of the arg-max / arg-min fallback is resolved
+/// (all tied regrets are exactly zero and never received a non-zero increment since they were
+/// last zeroed). The documentation says "best" / "worst" action and nothing about ties.
+#[derive(Clone, Copy, Debug, PartialEq, Eq)]
+pub enum TieRule {
+    /// last maximiser, first minimiser (what the pinned library happens to do)
+    LastMaxFirstMin,
+    /// first maximiser, last minimiser
+    FirstMaxLastMin,
+    /// uniform over the tied actions
+    Uniform,
+}
 
 struct InfoState {
     regret: Vec<f64>,
@@ -190,8 +205,8 @@ fn discount_factor(t: u64, exp: f64) -> f64 {
     }
 }
 
-/// regret matching with the documented fallbacks; returns (strategy, fragile reason)
-fn regret_match(regret: &[f64], mag: &[f64], w: f64) -> (Vec<f64>, Option<&'static str>) {
+/// regret matching with the documented fallbacks; returns (strategy, fragile reason, tie used)
+fn regret_match(regret: &[f64], mag: &[f64], w: f64, tie: TieRule) -> (Vec<f64>, Option<&'static str>, bool) {
     let n = regret.len();
     let scale: f64 = mag.iter().sum();
     let eps = MARGIN * scale;
@@ -202,8 +217,9 @@ fn regret_match(regret: &[f64], mag: &[f64], w: f64) -> (Vec<f64>, Option<&'stat
         fragile = Some("positive regret sum within margin of zero");
     }
     if pos > 0.0 {
-        return (regret.iter().map(|r| if *r > 0.0 { r / pos } else { 0.0 }).collect(), fragile);
+        return (regret.iter().map(|r| if *r > 0.0 { r / pos } else { 0.0 }).collect(), fragile, false);
     }
+    let mut tie_used = false;
     let strat = if w == 0.0 {
         vec![1.0 / n as f64; n]
     } else if w == f64::INFINITY || w == f64::NEG_INFINITY {
@@ -214,8 +230,27 @@ fn regret_match(regret: &[f64], mag: &[f64], w: f64) -> (Vec<f64>, Option<&'stat
                 best = i;
             }
         }
-        for i in 0..n {
-            if i != best && (key(regret[best]) - key(regret[i])) <= eps.max(f64::MIN_POSITIVE) {
+        let tied: Vec<usize> = (0..n)
+            .filter(|i| (key(regret[best]) - key(regret[*i])) <= eps.max(f64::MIN_POSITIVE))
+            .collect();
+        if tied.len() >= 2 {
+            // robust only if every tied value is an exact zero that never received an increment
+            let robust = tied.iter().all(|i| regret[*i] == 0.0 && mag[*i] == 0.0);
+            if robust {
+                tie_used = true;
+                match (tie, w > 0.0) {
+                    (TieRule::Uniform, _) => {
+                        let share = 1.0 / tied.len() as f64;
+                        return (
+                            (0..n).map(|i| if tied.contains(&i) { share } else { 0.0 }).collect(),
+                            fragile,
+                            true,
+                        );
+                    }
+                    (TieRule::LastMaxFirstMin, true) | (TieRule::FirstMaxLastMin, false) => best = *tied.last().unwrap(),
+                    (TieRule::LastMaxFirstMin, false) | (TieRule::FirstMaxLastMin, true) => best = tied[0],
+                }
+            } else {
                 fragile = Some("arg-max tie within margin");
             }
         }
@@ -227,7 +262,7 @@ fn regret_match(regret: &[f64], mag: &[f64], w: f64) -> (Vec<f64>, Option<&'stat
         let tot: f64 = exps.iter().sum();
         exps.iter().map(|e| e / tot).collect()
     };
-    (strat, fragile)
+    (strat, fragile, tie_used)
 }
 
 pub struct RunCfg<'a> {
@@ -237,6 +272,7 @@ pub struct RunCfg<'a> {
     /// multiply every increment by 1 + 1e-12 xi (xi from this seed)
     pub perturb: Option<u64>,
     pub decider: &'a mut dyn Decider,
+    pub tie: TieRule,
 }
 
 struct Noise(Option<u64>);
@@ -261,6 +297,7 @@ pub fn run(game: &RefGame, cfg: RunCfg) -> RefResult {
         iters,
         perturb,
         decider,
+        tie,
     } = cfg;
     let mut noise = Noise(perturb);
     let n = game.nodes.len();
@@ -283,6 +320,7 @@ pub fn run(game: &RefGame, cfg: RunCfg) -> RefResult {
         fragile_at: None,
         fragile_why: None,
         ambiguous_at: None,
+        tie_used_at: None,
         missing_draw: None,
         draws: Vec::new(),
         cum_regret: Default::default(),
@@ -492,10 +530,16 @@ pub fn run(game: &RefGame, cfg: RunCfg) -> RefResult {
                 }
                 let mut bound = 0.0;
                 for st in infos[p].iter_mut() {
-                    let (strat, frag) = regret_match(&st.regret, &st.mag, params.w);
+                    let (strat, frag, tie_used) = regret_match(&st.regret, &st.mag, params.w, tie);
+                    if tie_used && res.tie_used_at.is_none() {
+                        res.tie_used_at = Some(t);
+                    }
+                    // in external sampling player one's new strategy is already used by the second
+                    // pass of the same iteration
+                    let safe_t = if *upd == Some(0) { t - 1 } else { t };
                     if let Some(why) = frag {
                         if res.fragile_at.is_none() {
-                            res.fragile_at = Some(t);
+                            res.fragile_at = Some(safe_t);
                             res.fragile_why = Some(why);
                         }
                     }
@@ -506,9 +550,9 @@ pub fn run(game: &RefGame, cfg: RunCfg) -> RefResult {
                         .map(|r| if *r > 0.0 { r * pos_f } else { r * neg_f })
                         .collect();
                     if res.ambiguous_at.is_none() {
-                        let (alt, _) = regret_match(&disc, &st.mag, params.w);
+                        let (alt, _, _) = regret_match(&disc, &st.mag, params.w, tie);
                         if alt.iter().zip(strat.iter()).any(|(x, y)| (x - y).abs() > 1e-9) {
-                            res.ambiguous_at = Some(t);
+                            res.ambiguous_at = Some(safe_t);
                         }
                     }
                     st.strat = strat;
